@@ -1,5 +1,378 @@
-use crate::Ctx;
+//! C04 - everything the connection layer sends is well-formed; bad sends are refused.
+//!
+//! Generator: histories of valid API calls (netsim) with payload lengths from 0 to beyond the limits,
+//! many small chunks queued without a flush, resends spanning several datagrams, connless sends,
+//! disconnects with NUL-free reasons. Oracle: every datagram handed to the send callback is parsed
+//! by the library's own reader (true token mode) into a collecting warning sink; chunk contents are
+//! compared with the reference model of what was queued; a refused send must leave the connection
+//! as live as it was (differential fair-suffix run on clones).
 
-pub fn run(_ctx: &Ctx) {
-    // not built yet
+use crate::netsim::*;
+use crate::util::Warnings;
+use crate::{Ctx, Outcome, PResult};
+use proptest::prelude::*;
+use serde::{Deserialize, Serialize};
+
+pub const ORACLES: [&str; 3] = ["wellformed", "panic", "refusal"];
+
+fn fail<T>(oracle: &'static str, msg: String) -> Result<T, Failure> {
+    Err(Failure { oracle, msg })
+}
+
+#[derive(Default)]
+pub struct DgStats {
+    pub datagrams: u64,
+    pub compressed: u64,
+    pub multi_chunk: u64,
+    pub max_chunks: usize,
+    pub big_chunk: u64,
+    pub control: u64,
+    pub connless: u64,
+    pub close: u64,
+}
+
+/// Which vital chunk of side `s` carries sequence number `seq`? (the unique candidate among the last 1024 submitted)
+fn vital_candidate<P: Proto>(sim: &Sim<P>, s: usize, seq: u16) -> Option<&Vec<u8>> {
+    let base = sim.session_vital_base[s];
+    let n = sim.submitted_vital[s].len();
+    // chunk with index idx (0-based in the session) has sequence (idx + 1) % 1024
+    let mut idx = n;
+    while idx > base && n - idx < 1024 {
+        idx -= 1;
+        if ((idx - base + 1) % 1024) as u16 == seq {
+            return sim.submitted_vital[s].get(idx);
+        }
+    }
+    None
+}
+
+pub fn check_datagram<P: Proto>(sim: &Sim<P>, v: Variant, side: usize, d: &[u8], st: &mut DgStats) -> StepResult {
+    st.datagrams += 1;
+    if d.len() > 1400 {
+        return fail("wellformed", format!("{}: datagram of {} bytes (> 1400) handed to the send callback", P::NAME, d.len()));
+    }
+    let mut buf = [0u8; 2048];
+    let mut w = Warnings::new();
+    let hex = |d: &[u8]| crate::util::hex(&d[..d.len().min(48)]);
+    // (kind, num_chunks, chunk payload, close reason, connless payload)
+    enum Parsed<'a> {
+        Chunks(u8, &'a [u8]),
+        Close(&'a [u8]),
+        OtherControl,
+        Connless(&'a [u8]),
+    }
+    let parsed = if P::IS7 {
+        use libtw2_net::protocol7::*;
+        match Packet::read(&mut w, d, &mut buf[..]) {
+            Err(e) => return fail("wellformed", format!("0.7: the reader rejects a datagram the connection sent: {:?} [{}..]", e, hex(d))),
+            Ok(Packet::Connless(c)) => Parsed::Connless(c.payload),
+            Ok(Packet::Connected(ConnectedPacket { type_: ConnectedPacketType::Chunks(_, n, data), .. })) => Parsed::Chunks(n, data),
+            Ok(Packet::Connected(ConnectedPacket { type_: ConnectedPacketType::Control(ControlPacket::Close(r)), .. })) => Parsed::Close(r),
+            Ok(Packet::Connected(_)) => Parsed::OtherControl,
+        }
+    } else {
+        use libtw2_net::protocol::*;
+        let has_token = match v {
+            Variant::V6Token => true,
+            // a connector that has not been answered yet does not know the peer's token mode and
+            // appends the TOKEN_NONE marker to everything it sends (Connect, Close)
+            _ => side == 0 && sim.ready_seen == 0 && d.ends_with(&[0xff; 4]),
+        };
+        match Packet::read(&mut w, d, Some(has_token), &mut buf[..]) {
+            Err(e) => return fail("wellformed", format!("0.6: the reader (token hint {}) rejects a datagram the connection sent: {:?} [{}..]", has_token, e, hex(d))),
+            Ok(Packet::Connless(c)) => Parsed::Connless(c),
+            Ok(Packet::Connected(ConnectedPacket { type_: ConnectedPacketType::Chunks(_, n, data), .. })) => Parsed::Chunks(n, data),
+            Ok(Packet::Connected(ConnectedPacket { type_: ConnectedPacketType::Control(ControlPacket::Close(r)), .. })) => Parsed::Close(r),
+            Ok(Packet::Connected(_)) => Parsed::OtherControl,
+        }
+    };
+    let compressed = if P::IS7 { d[0] & 0b0001_0000 != 0 } else { d[0] & 0x80 != 0 && d[0] & 0x20 == 0 };
+    if compressed {
+        st.compressed += 1;
+    }
+    match parsed {
+        Parsed::Chunks(n, data) => {
+            let mut count = 0usize;
+            let mut chunks: Vec<(Vec<u8>, Option<(u16, bool)>)> = Vec::new();
+            let mut consumed = 0usize;
+            if P::IS7 {
+                let mut it = libtw2_net::protocol7::ChunksIter::new(data, n);
+                while let Some(c) = it.next_warn(&mut w) {
+                    crate::burn();
+                    count += 1;
+                    chunks.push((c.data.to_vec(), c.vital));
+                }
+                consumed = it.pos();
+            } else {
+                let mut it = libtw2_net::protocol::ChunksIter::new(data, n);
+                while let Some(c) = it.next_warn(&mut w) {
+                    crate::burn();
+                    count += 1;
+                    chunks.push((c.data.to_vec(), c.vital));
+                }
+                consumed = it.pos();
+            }
+            if count != n as usize {
+                return fail("wellformed", format!("{}: header says {} chunks, datagram carries {} [{}..]", P::NAME, n, count, hex(d)));
+            }
+            if consumed != data.len() {
+                return fail("wellformed", format!("{}: chunk iterator consumed {} of {} payload bytes", P::NAME, consumed, data.len()));
+            }
+            if count >= 2 {
+                st.multi_chunk += 1;
+            }
+            st.max_chunks = st.max_chunks.max(count);
+            for (cd, vital) in &chunks {
+                if cd.len() >= 16 {
+                    st.big_chunk += 1;
+                }
+                match vital {
+                    Some((seq, _)) => match vital_candidate(sim, side, *seq) {
+                        Some(exp) if exp == cd => {}
+                        Some(exp) => {
+                            return fail(
+                                "wellformed",
+                                format!(
+                                    "{}: vital chunk with sequence {} on the wire ({} bytes {}..) differs from what was queued ({} bytes {}..)",
+                                    P::NAME, seq, cd.len(), hex(cd), exp.len(), hex(exp)
+                                ),
+                            )
+                        }
+                        None => return fail("wellformed", format!("{}: vital chunk with sequence {} on the wire but no such chunk was queued", P::NAME, seq)),
+                    },
+                    None => {
+                        if !sim.submitted_nonvital[side].contains(cd) {
+                            return fail("wellformed", format!("{}: non-vital chunk on the wire that was never queued ({} bytes {}..)", P::NAME, cd.len(), hex(cd)));
+                        }
+                    }
+                }
+            }
+        }
+        Parsed::Close(_) => {
+            st.close += 1;
+            st.control += 1;
+        }
+        Parsed::OtherControl => st.control += 1,
+        Parsed::Connless(p) => {
+            st.connless += 1;
+            if !sim.submitted_connless[side].contains(p) {
+                return fail("wellformed", format!("{}: connless payload on the wire that was never submitted ({} bytes)", P::NAME, p.len()));
+            }
+        }
+    }
+    if !w.is_empty() {
+        return fail("wellformed", format!("{}: the reader warns about a datagram the connection sent: {:?} [{}..]", P::NAME, w.0, hex(d)));
+    }
+    Ok(())
+}
+
+#[derive(Clone, Debug, Hash, Serialize, Deserialize)]
+pub struct Case {
+    pub ops: Vec<Op>,
+}
+
+/// The length set of the design: limits and beyond.
+pub fn c04_len_strategy() -> BoxedStrategy<u16> {
+    prop_oneof![
+        4 => prop::sample::select(vec![0u16, 1, 2, 15, 16, 17, 31, 32, 63, 64, 65, 127, 128, 255, 256, 1000, 1022, 1023, 1024, 1025,
+            1385, 1386, 1387, 1388, 1389, 1390, 1391, 1392, 2047, 2048, 2049, 5000]),
+        3 => 0u16..1400,
+        3 => 0u16..24,
+    ]
+    .boxed()
+}
+
+fn c04_op_strategy() -> BoxedStrategy<Op> {
+    prop_oneof![
+        12 => (0u8..2, any::<bool>(), c04_len_strategy(), any::<u8>()).prop_map(|(side, vital, len, fill)| Op::Send { side, vital, len, fill }),
+        // many tiny chunks without a flush
+        2 => (0u8..2, any::<bool>(), 0u16..3, any::<u8>(), 1usize..400).prop_map(|(side, vital, len, fill, _n)| Op::Send { side, vital, len, fill }),
+        4 => (0u8..2).prop_map(|side| Op::Flush { side }),
+        5 => (0u8..2).prop_map(|side| Op::Tick { side }),
+        4 => (0u8..10).prop_map(|dt| Op::Advance { dt }),
+        6 => (0u8..2, prop_oneof![3 => Just(0u16), 1 => any::<u16>()]).prop_map(|(dir, k)| Op::Deliver { dir, k }),
+        2 => (0u8..2, any::<u16>()).prop_map(|(dir, k)| Op::Drop { dir, k }),
+        1 => (0u8..2, any::<u16>()).prop_map(|(dir, k)| Op::Dup { dir, k }),
+        3 => (0u8..2).prop_map(|dir| Op::DeliverAll { dir }),
+        2 => (0u8..2, 0u16..1500).prop_map(|(side, len)| Op::SendConnless { side, len }),
+        1 => (0u8..2, prop_oneof![Just(0u8), Just(1), Just(126), Just(127), 0u8..=127]).prop_map(|(side, reason_len)| Op::Disconnect { side, reason_len }),
+        1 => Just(Op::Reset),
+        1 => Just(Op::Connect),
+    ]
+    .boxed()
+}
+
+/// An op list in which a "many tiny chunks" block is expanded.
+fn case_strategy(max_ops: usize) -> BoxedStrategy<Case> {
+    (
+        proptest::collection::vec(c04_op_strategy(), 0..max_ops),
+        proptest::option::weighted(0.35, (0u8..2, any::<bool>(), 0u16..3, 100usize..800, any::<u16>())),
+    )
+        .prop_map(|(mut ops, many)| {
+            let mut v = handshake_prelude();
+            // bring the acceptor online too
+            if let Some((side, vital, len, n, at)) = many {
+                let pos = crate::pick(at, ops.len() + 1);
+                let block: Vec<Op> = (0..n).map(|i| Op::Send { side, vital, len, fill: i as u8 }).collect();
+                let tail = ops.split_off(pos);
+                ops.extend(block);
+                ops.extend(tail);
+            }
+            v.append(&mut ops);
+            Case { ops: v }
+        })
+        .boxed()
+}
+
+pub struct Limits {
+    pub max_len: usize,
+    pub max_queued: usize,
+}
+
+fn run_case<P: Proto>(v: Variant, ops: &[Op], lim: &Limits) -> PResult {
+    let mut sim: Sim<P> = Sim::new(0xC04, v == Variant::V6NoToken);
+    sim.max_len = lim.max_len;
+    sim.max_queued = lim.max_queued;
+    sim.log_sent = true;
+    let mut st = DgStats::default();
+    let mut aborted = false;
+    let mut refused = 0u64;
+    let mut refusal_checked = 0u64;
+    for (i, op) in ops.iter().enumerate() {
+        // a refused send must leave the connection as live as before: differential fair suffix
+        let pre = if let Op::Send { side, len, .. } = op {
+            let limit = if P::IS7 { 1385 } else { 1020 };
+            if *len as usize >= limit && sim.online(*side as usize & 1) && sim.alive() && refusal_checked < 3 {
+                Some(sim.snapshot())
+            } else {
+                None
+            }
+        } else {
+            None
+        };
+        let too_long_before = sim.stats.too_long;
+        let r = sim.step(op).and_then(|()| {
+            let sent = std::mem::take(&mut sim.sent_log);
+            for dg in &sent {
+                check_datagram(&sim, v, dg.side, &dg.data, &mut st)?;
+            }
+            Ok(())
+        });
+        if let Err(f) = r {
+            if ORACLES.contains(&f.oracle) {
+                return Err(format!("op #{} {:?}: [{}] {}", i, op, f.oracle, f.msg));
+            }
+            aborted = true;
+            break;
+        }
+        if sim.stats.too_long > too_long_before {
+            refused += 1;
+            if let Some(mut before) = pre {
+                refusal_checked += 1;
+                before.log_sent = false;
+                let mut after = sim.snapshot();
+                after.log_sent = false;
+                let rb = before.fair_suffix(40);
+                let ra = after.fair_suffix(40);
+                match (rb, ra) {
+                    (Ok(Some(_)), Ok(None)) => {
+                        return Err(format!("op #{} {:?}: [refusal] {}: before the refused send the connection drained under the fair scheduler, afterwards it does not", i, op, P::NAME));
+                    }
+                    (Ok(Some(_)), Err(f)) => {
+                        return Err(format!("op #{} {:?}: [refusal] {}: after the refused send the fair suffix fails: [{}] {}", i, op, P::NAME, f.oracle, f.msg));
+                    }
+                    _ => {}
+                }
+            }
+        }
+    }
+    Ok(Outcome::nt(st.multi_chunk > 0 || st.big_chunk > 0 || st.compressed > 0 || refused > 0)
+        .class_if(st.compressed > 0, "compressed_datagram")
+        .class_if(st.multi_chunk > 0, "multi_chunk_datagram")
+        .class_if(st.max_chunks >= 11, "datagram_11_plus_chunks")
+        .class_if(st.max_chunks >= 200, "datagram_200_plus_chunks")
+        .class_if(refused > 0, "refused_send")
+        .class_if(refusal_checked > 0, "refusal_liveness_checked")
+        .class_if(sim.stats.resend_datagrams > 0, "resend_datagrams")
+        .class_if(st.connless > 0, "connless")
+        .class_if(st.close > 0, "close")
+        .class_if(aborted, "aborted_by_other_oracle"))
+}
+
+fn check(v: Variant, c: &Case, lim: &Limits) -> PResult {
+    match v {
+        Variant::V6Token | Variant::V6NoToken => run_case::<P6>(v, &c.ops, lim),
+        Variant::V7 => run_case::<P7>(v, &c.ops, lim),
+    }
+}
+
+fn sweep_one(v: Variant, len: usize, vital: bool) -> Result<bool, String> {
+    let mut ops = handshake_prelude();
+    // the acceptor needs to be online to send: it is after the prelude's chunk
+    for side in 0..2u8 {
+        ops.push(Op::Send { side, vital, len: len as u16, fill: 5 });
+        ops.push(Op::Flush { side });
+        ops.push(Op::Drop { dir: side, k: 0 });
+        ops.push(Op::Advance { dt: 7 });
+        ops.push(Op::Tick { side });
+        ops.push(Op::DeliverAll { dir: side });
+        ops.push(Op::DeliverAll { dir: 1 - side });
+    }
+    let lim = Limits { max_len: 6000, max_queued: 1000 };
+    check(v, &Case { ops }, &lim).map(|_| true)
+}
+
+pub fn run(ctx: &Ctx) {
+    ctx.set_rule(
+        "histories of valid API calls: send (lengths from the boundary set {0..2049, 5000} and uniform 0..1400, vital or not), blocks of \
+         100..800 tiny chunks without flush, flush, tick after clock advances, deliver/drop/dup, connless sends 0..1500, disconnect with \
+         NUL-free reasons 0..127, reset/connect; every datagram handed to the send callback is checked; non-trivial = a datagram with >= 2 \
+         chunks or a chunk >= 16 bytes or a compressed datagram or a refused send occurred; distinct by hash of the op list. Plus a sweep \
+         of a single chunk of every length (sent, flushed, lost, resent) for all variants.",
+    );
+    ctx.assume("oracle parses with the library's own reader (as the property states) told the true token mode");
+    // canonical probes for the confirmed findings / regression tests for their fixes
+    ctx.probe("v6-send-1024-panics", || sweep_one(Variant::V6Token, 1024, true).map(|_| ()));
+    ctx.probe("more-than-255-chunks-queued", || {
+        let mut ops = handshake_prelude();
+        for i in 0..300 {
+            ops.push(Op::Send { side: 0, vital: false, len: 0, fill: i as u8 });
+        }
+        ops.push(Op::Flush { side: 0 });
+        check(Variant::V7, &Case { ops }, &Limits { max_len: 6000, max_queued: 1000 }).map(|_| ())
+    });
+    ctx.probe("v7-chunk-header-padding-warning", || sweep_one(Variant::V7, 16, false).map(|_| ()));
+    let mut lim6 = Limits { max_len: 6000, max_queued: 1000 };
+    let mut lim7 = Limits { max_len: 6000, max_queued: 1000 };
+    if ctx.known_open("v6-send-1024-panics") {
+        lim6.max_len = 1023;
+        ctx.add_excluded_known(1);
+    }
+    if ctx.known_open("more-than-255-chunks-queued") {
+        lim6.max_queued = 250;
+        lim7.max_queued = 250;
+        ctx.add_excluded_known(1);
+    }
+    let max_ops = ctx.n(150, 600) as usize;
+    for v in VARIANTS {
+        let lim = if v == Variant::V7 { &lim7 } else { &lim6 };
+        ctx.prop(&format!("calls/{}", v.name()), ctx.n(3000, 60_000), || case_strategy(max_ops), |c: &Case| check(v, c, lim));
+    }
+    // single chunk of every length, vital and not, all variants: sent, flushed, lost, resent
+    let max = ctx.n(1500, 2100);
+    let lim6max = lim6.max_len as u64;
+    ctx.exhaustive(
+        "single_chunk_every_length",
+        (max + 1) * 2 * 3,
+        |i| {
+            let v = VARIANTS[(i % 3) as usize];
+            let vital = (i / 3) % 2 == 1;
+            let len = i / 6;
+            if v != Variant::V7 && len > lim6max {
+                return Ok(false);
+            }
+            sweep_one(v, len as usize, vital)
+        },
+        |i| serde_json::json!({"variant": VARIANTS[(i % 3) as usize].name(), "vital": (i / 3) % 2 == 1, "len": i / 6}),
+    );
 }
